@@ -289,7 +289,8 @@ static void* arenaAlloc(size_t n) {
     *(size_t*)base = n;
     return base + 16;
 }
-static void* heapMalloc(size_t n) { schedPoint(); if (!arenaOn) return realMalloc(n); void* p = arenaAlloc(n); if (p) shadowForget((uintptr_t)p, n); return p; }
+static bool g_failNextMallocOfT0 = false;      // one platform malloc of the test thread answers NULL (under the detector's lock)
+static void* heapMalloc(size_t n) { schedPoint(); if (g_failNextMallocOfT0 && tlsId == 0) { g_failNextMallocOfT0 = false; fired("platform_malloc_null_under_lock"); return 0; } if (!arenaOn) return realMalloc(n); void* p = arenaAlloc(n); if (p) shadowForget((uintptr_t)p, n); return p; }
 static void heapFree(void* p) { schedPoint(); if (!p) return; if (inArena(p)) { shadowForget((uintptr_t)p, *(size_t*)((char*)p - 16)); return; } realFree(p); }
 static void* heapRealloc(void* p, size_t n) {
     schedPoint();
@@ -372,7 +373,7 @@ static void* threadMain(void* arg) {
 }
 
 // ------------------------------------------------------------------------------------------------ the misuse-while-locked test (runs on thread 0)
-static const Group* g_testScript; static bool g_teardownMisuse = false;
+static const Group* g_testScript; static bool g_teardownMisuse = false; static bool g_allocatingOutput = false;
 static char* foreignAddress() { return arena + arenaCap - 4096; }     // never handed out; only its value is used, it is never dereferenced
 class MisuseTest : public Utest {
 public:
@@ -391,6 +392,8 @@ public:
                 else if (o.a == 3) { cpputest_realloc_location(foreignAddress(), (size_t)o.c, "thr.c", 9); }                  // realloc of a foreign pointer
                 else if (o.a == 4) { char* p = (char*)acquire(0, 8, 57); cpputest_realloc_location(p, 16, "thr.c", 10); }       // realloc of a block that came from new
                 else if (o.a == 5) { size_t n = (size_t)o.c; char* p = (char*)acquire(4, n, 58); p[n] = 'X'; cpputest_realloc_location(p, n + 8, "thr.c", 11); }   // overrun, then realloc
+                else if (o.a == 6 && g_allocatingOutput) { /* see DESIGN 10.3: with an output that allocates while it records the failure this is the known finding's FAIL raised under the lock; not mixed */ }
+                else if (o.a == 6) { g_failNextMallocOfT0 = true; char* p = (o.b & 1) ? (char*)cpputest_malloc_location((size_t)o.c, "thr.c", 12) : new char[(size_t)o.c]; g_failNextMallocOfT0 = false; if (p) { Held h; h.p = p; h.form = (o.b & 1) ? 4 : 1; h.size = (size_t)o.c; release(h); } }      // not a misuse but the other failure raised under the lock: the default allocator fails the test when the platform has no memory
                 else { char* p = (char*)acquire(0, 8, 56); Held h; h.p = p; h.form = 4; h.size = 8; release(h); }                                                                          // new / free mismatch
             }
         }
@@ -444,7 +447,7 @@ struct Engine : public vf::Engine {
             Group T; T.tag = "test";
             int n = (int)w.range(0, 6);
             for (int i = 0; i < n; i++) { Op o; o.kind = w.chance(1, 2) ? X_ALLOC : X_FREE; o.a = (int64_t)w.below(4); o.b = (int64_t)w.below(5); o.c = w.range(1, 40); T.ops.push_back(o); }
-            Op m; m.kind = X_MISUSE; m.a = (int64_t)w.below(6); m.b = (int64_t)w.below(5); m.c = w.range(1, 40); T.ops.insert(T.ops.begin() + (long)w.below(T.ops.size() + 1), m);
+            Op m; m.kind = X_MISUSE; m.a = (int64_t)w.below(7); m.b = (int64_t)w.below(5); m.c = w.range(1, 40); T.ops.insert(T.ops.begin() + (long)w.below(T.ops.size() + 1), m);
             d.groups.push_back(T);
         }
         for (int t = 0; t < nThreads; t++) {
@@ -497,7 +500,7 @@ struct Engine : public vf::Engine {
         size_t testFailures = 0; Str testFailureText;
         if (misuse && testScript) {
             // thread 0 is the test runner: a real test whose body misuses memory while the workers allocate
-            g_testScript = testScript; g_teardownMisuse = d.pi("teardown_misuse", 0) != 0;
+            g_testScript = testScript; g_teardownMisuse = d.pi("teardown_misuse", 0) != 0; g_allocatingOutput = d.pi("junit_out") != 0;
             TestRegistry reg; TestRegistry* saved = TestRegistry::getCurrentRegistry(); reg.setCurrentRegistry(&reg);
             MisuseShell* shell = new (::malloc(sizeof(MisuseShell))) MisuseShell(); reg.addTest(shell);
             if (d.pi("junit_out")) {
@@ -560,10 +563,11 @@ struct Engine : public vf::Engine {
             // exactly one failure for the misusing test, and everybody could still allocate afterwards (checked by the lock oracles above)
             // ... and the failure says which misuse it was (one of the detector's three headlines; with the junit output the text sits in the simulated file)
             size_t wantFailures = d.pi("teardown_misuse", 0) ? 2 : 1;
-            if (testFailures == wantFailures) {
+            if (testScript && d.pi("junit_out")) for (size_t i = 0; i < testScript->ops.size(); i++) if (testScript->ops[i].kind == X_MISUSE && testScript->ops[i].a == 6) wantFailures--;      // (that operation is left out under an allocating output)
+            if (testFailures == wantFailures && wantFailures > 0) {
                 Str text = testFailureText == "(junit output)" ? Str() : testFailureText;
                 if (testFailureText == "(junit output)") for (size_t i = 0; i < simIO().files.size(); i++) text += simIO().files[i]->data;
-                bool named = text.find("Deallocating non-allocated memory") != Str::npos || text.find("Allocation/deallocation type mismatch") != Str::npos || text.find("Memory corruption") != Str::npos;
+                bool named = text.find("Deallocating non-allocated memory") != Str::npos || text.find("Allocation/deallocation type mismatch") != Str::npos || text.find("Memory corruption") != Str::npos || text.find("malloc returned null pointer") != Str::npos;
                 if (!named) r.fail("C10", "misuse_report_text", sg("what", "the failure does not say which misuse was detected"), text.substr(0, 300));
             }
             if (testFailures != wantFailures) r.fail("C10", "misuse_reported_once", sg("what", testFailures < wantFailures ? "misuse not reported as a test failure" : "more failures than misuses"), sfmt("%zu failures recorded for the misusing test: %s", testFailures, testFailureText.substr(0, 300).c_str()));
